@@ -1128,7 +1128,17 @@ def install(reg):
 
     @fn("numpy.tile")
     def np_tile(itp, a, k):
-        raise Unsupported("np.tile")
+        """tile(v, (r, 1)) of a 1-D v: r stacked copies of v as rows, result[a, b] = v[b]"""
+        v = to_array(itp, a[0])
+        reps = a[1] if len(a) > 1 else k.get("reps")
+        if v.ndim == 1 and isinstance(reps, (tuple, list)) and len(reps) == 2 and isinstance(reps[1], int) and reps[1] == 1:
+            r = term_of(reps[0])
+            if not itp.cx.valid(T.ge(r, 0)):
+                raise Unsupported("np.tile with a possibly negative repetition count")
+            g = v.getter()
+            _trust(itp, "tile(v, (r, 1))[a, b] = v[b] (r rows)")
+            return SArr.fresh((r, v.shape[0]), lambda idx: g((idx[1],)), v.dtype)
+        raise Unsupported("np.tile of this shape / reps")
 
     @fn("numpy.meshgrid")
     def np_meshgrid(itp, a, k):
